@@ -3,7 +3,6 @@
 (* the driver (the harness never keeps its own copy of the input domain).    *)
 EXTENDS Listener, Json
 VARIABLE x
-SetToSeq(S) == CHOOSE f \in [1..Cardinality(S) -> S] : \A a, b \in 1..Cardinality(S) : a # b => f[a] # f[b]
 ASSUME PrintT(ToJson([ctl |-> [specs |-> CtlSpecs, layouts |-> CtlLayouts, svcs |-> CtlSvcs, nilpools |-> NILPOOLS],
                       spk |-> [configs |-> SpkConfigs, nodes |-> SpkNodes, objs |-> SpkSvcObjs, svcs |-> SpkSvcs]]))
 Init == x = 0
